@@ -122,7 +122,8 @@ def run_cli(tmp, flags, srcs, mode_out, mode_in, stdin_text=None, hashseed='0'):
     if mode_out == 'file':
         outpath = os.path.join(tmp, 'out.py')
         with open(outpath, 'w', encoding='utf8') as f:
-            f.write('JUNK that must be overwritten\n' * 3)
+            # (longer than any output of this case: whatever is left of it afterwards shows)
+            f.write('JUNK that must be overwritten\n' * 40000)
         args += ['-o', outpath]
     args += srcs
     p = subprocess.run(args, env=env, input=(stdin_text.encode('utf8') if stdin_text is not None else None),
